@@ -360,6 +360,43 @@ let switch_main () =
      | _ -> print_endline "?")
   done with End_of_file -> ())
 
+(* lower: stdin lines "<oracle bits | -> <statement in prefix form>": M n | K | S a b | I k a b | F init (k|-) inc body | D body k | B | C
+   prints "<emitted jump code> | <trace of the structured program on that oracle, or NONE>" (C03) *)
+let lower_main () =
+  let rec nat_of i = if i <= 0 then O else S (nat_of (i - 1)) in
+  let rec nat_int = function O -> 0 | S m -> 1 + nat_int m in
+  let rec parse = function
+    | "M" :: n :: r -> (LMark (nat_of (int_of_string n)), r)
+    | "K" :: r -> (LSkip, r)
+    | "B" :: r -> (LBreak, r)
+    | "C" :: r -> (LContinue, r)
+    | "S" :: r -> let (a, r) = parse r in let (b, r) = parse r in (LSeq (a, b), r)
+    | "I" :: k :: r -> let (a, r) = parse r in let (b, r) = parse r in (LIf (nat_of (int_of_string k), a, b), r)
+    | "F" :: r -> let (i, r) = parse r in
+        (match r with
+         | k :: r -> let kk = if k = "-" then None else Some (nat_of (int_of_string k)) in
+                     let (inc, r) = parse r in let (body, r) = parse r in (LFor (i, kk, inc, body), r)
+         | [] -> failwith "for")
+    | "D" :: r -> let (b, r) = parse r in (match r with k :: r -> (LDo (b, nat_of (int_of_string k)), r) | [] -> failwith "do")
+    | _ -> failwith "stmt" in
+  (try while true do
+    let line = input_line stdin in
+    (match List.filter (fun x -> x <> "") (String.split_on_char ' ' (String.trim line)) with
+     | bits :: toks ->
+       let (s, _) = parse toks in
+       let o = if bits = "-" then [] else List.init (String.length bits) (fun i -> bits.[i] = '1') in
+       let n = lsize s in
+       let code = lgen s O n n in
+       let show = function IMark n -> Printf.sprintf "M%d" (nat_int n) | ICondJf (k, t) -> Printf.sprintf "F%d:%d" (nat_int k) (nat_int t)
+                         | ICondJt (k, t) -> Printf.sprintf "T%d:%d" (nat_int k) (nat_int t) | IJmp t -> Printf.sprintf "J%d" (nat_int t) in
+       let tr = match lexec (nat_of 4000) s o with
+         | Some ((t, _), ONormal) -> String.concat " " (List.map (fun x -> string_of_int (nat_int x)) t)
+         | Some ((_, _), _) -> "STRAY"
+         | None -> "NONE" in
+       print_endline (String.concat " " (List.map show code) ^ " | " ^ tr)
+     | _ -> print_endline "?")
+  done with End_of_file -> ())
+
 (* bf: stdin lines "bf <u> <v> <off> <w> <size> <sgn>" -> "<unit after store> <value read back>" ; "ea <base> <idx> <size>" -> address (C04) *)
 let bf_main () =
   let z_of_string s =
@@ -499,6 +536,7 @@ let () =
   | [_; "link"] -> link_main ()
   | [_; "bf"] -> bf_main ()
   | [_; "switch"] -> switch_main ()
+  | [_; "lower"] -> lower_main ()
   | [_; "sdisc"] -> sdisc_main ()
   | [_; "inc"] -> inc_main ()
   | [_; "fusing"] -> fusing_main ()
